@@ -713,6 +713,10 @@ class ModuleEnv:
                     return int2elem(z3.If(v.t, 1, 0))
                 if isinstance(v, VConst) and isinstance(v.py, str):
                     return z3.Const('strconst_' + v.py, ELEM)      # distinct names are NOT assumed distinct values (sound: only equalities of the same literal are used)
+                if isinstance(v, VNone):
+                    return z3.Const('none_elem', ELEM)
+                if isinstance(v, VOpt):       # an optional element: None is the element constant none_elem (not assumed different from other elements)
+                    return z3.If(v.isnone, z3.Const('none_elem', ELEM), coerce(v.val, 'elem').t)
                 return coerce(v, 'elem').t
             xs = [_arg(v) for v in vals[1:]]
             f = z3.Function('ufe_' + fname, *([ELEM] * (len(xs) + 1)))
